@@ -654,3 +654,63 @@ func TestVerifC04Exhaustive(t *testing.T) {
 			return viol
 		})
 }
+
+// ---- bounded exhaustive enumeration for C10 -------------------------------------------------
+//
+// this node x (selected by the advertisement / advertisement of the pool selects other nodes / advertisement
+// only for another pool) x NetworkUnavailable x exclude label x ignore flag x traffic policy
+// x home node of endpoint addresses A and B in {this node, another node, no node name}
+// x 3 endpoint-slice entries, each absent or (address A/B, ready in {nil,true,false}, serving in {nil,true,false},
+// slice 0/1): 48 * 9 * 37^3 = 21 882 096 views, all inside the domain where an address lives on one node.
+
+const c10EnumSize = 48 * 9 * 37 * 37 * 37
+
+func c10ViewAt(i int) vfBGPView {
+	v := vfView{IPs: []string{"10.0.0.1"}}
+	f := i % 48
+	i /= 48
+	me := vw.NodeSpec{Name: "node0", IPs: []string{"192.168.0.1"}, Unavailable: f&1 != 0, Excluded: f&2 != 0}
+	v.Ignore, v.Local = f&4 != 0, f&8 != 0
+	adv := vw.BGPAdvSpec{Name: "bgpadv0", Agg4: -1, Agg6: -1}
+	switch f / 16 {
+	case 0:
+		adv.Pools, adv.NodeSel = []string{"pool0"}, []vw.Sel{{"sel": "yes"}}
+		me.Labels = map[string]string{"sel": "yes"}
+	case 1:
+		adv.Pools, adv.NodeSel = []string{"pool0"}, []vw.Sel{{"sel": "yes"}}
+	case 2:
+		adv.Pools = []string{"other"}
+	}
+	v.BGP = []vw.BGPAdvSpec{adv}
+	v.Nodes = []vw.NodeSpec{me, {Name: "node1", IPs: []string{"192.168.0.2"}, Labels: map[string]string{"sel": "yes"}}}
+	v.Alive = []bool{true, true}
+	h := i % 9
+	i /= 9
+	home := [2]string{[]string{"node0", "node1", ""}[h%3], []string{"node0", "node1", ""}[h/3]}
+	sl := []vw.SliceSpec{{Name: "s0", NS: "ns0", Svc: "svc0"}, {Name: "s1", NS: "ns0", Svc: "svc0"}}
+	for e := 0; e < 3; e++ {
+		k := i % 37
+		i /= 37
+		if k == 0 {
+			continue
+		}
+		k--
+		a := k % 2
+		cond := (k / 2) % 9
+		ep := vw.EndpointSpec{Addrs: []string{fmt.Sprintf("10.244.0.%d", a+1)}, Node: home[a], Ready: vw.Tri(cond % 3), Serving: vw.Tri(cond / 3)}
+		sl[k/18].Endpoints = append(sl[k/18].Endpoints, ep)
+	}
+	for _, s := range sl {
+		if len(s.Endpoints) > 0 {
+			v.Slices = append(v.Slices, s)
+		}
+	}
+	return vfBGPView{View: v}
+}
+
+func TestVerifC10Exhaustive(t *testing.T) {
+	vw.RunEnum(t, vw.Options{Property: "C10", Engine: "exhaustive-views",
+		Rule: "complete enumeration (thorough tier; the quick tier visits every 2048th view, offset by the seed): this node x (selected / pool advertised from other nodes only / only another pool advertised) x NetworkUnavailable x exclude label x ignore flag x traffic policy x home node of endpoint addresses A and B in {this node, other node, none} x 3 endpoint-slice entries each absent or (A/B, ready nil/true/false, serving nil/true/false, slice 0/1) = 21 882 096 views; closed-form iff of the statement; non-trivial as in the views engine",
+		Assumptions: []string{"every entry carrying an endpoint address names the same node (a pod IP is on one node)"}},
+		c10EnumSize, 2048, c10ViewAt, runBGPView)
+}
